@@ -311,7 +311,7 @@ class SnmpSession(object):
 
         if self._deferred_user:
             # First check runs engine id discovery
-            self._sock.refresh()
+            self._refresh_sock()
             # Set and localize actual keys
             self._sock.set_keys(
                 self._deferred_user.name,
@@ -326,7 +326,14 @@ class SnmpSession(object):
             self._deferred_user = None
 
         # Refresh engine boots and time
-        self._sock.refresh()
+        self._refresh_sock()
+
+    def _refresh_sock(self: "SnmpSession") -> None:
+        """Send refresh request and wait for the reply."""
+        try:
+            self._sock.refresh()  # type: ignore[attr-defined]
+        except BlockingIOError as e:
+            raise TimeoutError from e
 
     def get_engine_id(self: "SnmpSession") -> bytes:
         """
